@@ -22,6 +22,10 @@ pub mod sparse_vector;
 pub mod support;
 pub mod wavelet_matrix;
 
+#[cfg(any(feature = "verif-probes", feature = "verif-bounds"))]
+#[doc(hidden)]
+pub mod verif;
+
 #[cfg(any(test, feature = "binaries"))]
 #[doc(hidden)]
 pub mod internal;
